@@ -10,15 +10,15 @@ open Rust Buffers
 stream, at most `max` bytes long, that starts like a request/response and either contains the blank line or is
 the whole stream (the peer closed). -/
 theorem readHeadersLoop_spec : ∀ (fuel : Nat) (buf : Bytes) (cap : Nat) (stream : Bytes) (sched gs : List Nat)
-    (max : Nat) (r : Bytes), stream.length < fuel →
-    readHeadersLoop fuel buf cap stream sched gs max = .ok r →
+    (max : Nat) (eof : Bool) (r : Bytes), stream.length < fuel →
+    readHeadersLoop fuel buf cap stream sched gs max eof = .ok r →
     ∃ n, n ≤ stream.length ∧ r = buf ++ stream.take n ∧ r.length ≤ max ∧ plausible r = true ∧
       (containsTwoNewlines r = true ∨ n = stream.length) := by
   intro fuel
   induction fuel with
-  | zero => intro buf cap stream _ _ _ r h; omega
+  | zero => intro buf cap stream _ _ _ _ r h; omega
   | succ fuel ih =>
-    intro buf cap stream sched gs max r hf h
+    intro buf cap stream sched gs max eof r hf h
     unfold readHeadersLoop at h
     by_cases hmax : buf.length ≥ max
     · simp [hmax] at h
@@ -42,11 +42,13 @@ theorem readHeadersLoop_spec : ∀ (fuel : Nat) (buf : Bytes) (cap : Nat) (strea
           have : 1 ≤ Nat.max (sched.headD (min cap' max - buf.length)) 1 := Nat.le_max_right _ _
           omega
         split at h
-        · rename_i hp
-          simp only [Except.ok.injEq] at h
-          refine ⟨0, by omega, by rw [← h], ?_, by rw [← h]; exact hp, .inr (by omega)⟩
-          rw [← h]; simp; omega
         · cases h
+        · split at h
+          · rename_i hp
+            simp only [Except.ok.injEq] at h
+            refine ⟨0, by omega, by rw [← h], ?_, by rw [← h]; exact hp, .inr (by omega)⟩
+            rw [← h]; simp; omega
+          · cases h
       · simp only [hz, ↓reduceIte] at h
         split at h
         · cases h
@@ -56,7 +58,7 @@ theorem readHeadersLoop_spec : ∀ (fuel : Nat) (buf : Bytes) (cap : Nat) (strea
               simp only [Except.ok.injEq] at h
               exact ⟨k, hk1, h.symm, by rw [← h, hlen]; exact hk2, by rw [← h]; exact hp, .inl (by rw [← h]; exact htwo)⟩
             · cases h
-          · obtain ⟨n, hn1, hn2, hn3, hn4, hn5⟩ := ih _ _ _ _ _ _ r (by simp only [List.length_drop]; omega) h
+          · obtain ⟨n, hn1, hn2, hn3, hn4, hn5⟩ := ih _ _ _ _ _ _ _ r (by simp only [List.length_drop]; omega) h
             simp only [List.length_drop] at hn1 hn5
             refine ⟨k + n, by omega, ?_, hn3, hn4, ?_⟩
             · rw [hn2, List.append_assoc, List.take_add]
@@ -64,21 +66,103 @@ theorem readHeadersLoop_spec : ∀ (fuel : Nat) (buf : Bytes) (cap : Nat) (strea
               · exact .inl h5
               · exact .inr (by omega)
 
-theorem readHeaders_spec (stream : Bytes) (sched gs : List Nat) (max : Nat) (r : Bytes)
-    (h : readHeaders stream sched gs max = .ok r) :
+theorem readHeaders_spec (stream : Bytes) (sched gs : List Nat) (max : Nat) (eof : Bool) (r : Bytes)
+    (h : readHeaders stream sched gs max eof = .ok r) :
     ∃ n, n ≤ stream.length ∧ r = stream.take n ∧ r.length ≤ max ∧ plausible r = true ∧
       (containsTwoNewlines r = true ∨ n = stream.length) := by
-  obtain ⟨n, a, b, c, d, e⟩ := readHeadersLoop_spec _ [] 512 stream sched gs max r (by omega) h
+  obtain ⟨n, a, b, c, d, e⟩ := readHeadersLoop_spec _ [] 512 stream sched gs max eof r (by omega) h
   exact ⟨n, a, by simpa using b, c, d, e⟩
+
+theorem twoNewlinesAux_append : ∀ (a b : Bytes) (i : Nat), twoNewlinesAux a i = true → twoNewlinesAux (a ++ b) i = true := by
+  intro a
+  induction a with
+  | nil => intro b i h; simp [twoNewlinesAux] at h
+  | cons x r ih =>
+    intro b i h
+    simp only [List.cons_append, twoNewlinesAux] at h ⊢
+    split
+    · rename_i hx; rw [if_pos hx] at h
+      split
+      · rename_i hi; rw [if_pos hi] at h; exact ih b 1 h
+      · rfl
+    · rename_i hx; rw [if_neg hx] at h
+      split
+      · rename_i hc; rw [if_pos hc] at h; exact ih b i h
+      · rename_i hc; rw [if_neg hc] at h; exact ih b 0 h
+
+theorem containsTwoNewlines_append (a b : Bytes) (h : containsTwoNewlines a = true) : containsTwoNewlines (a ++ b) = true :=
+  twoNewlinesAux_append a b 0 h
+
+/-- **a complete head is found without waiting for more** (every schedule, every allocator behaviour): if the bytes
+already on the stream contain the blank line, the reader's result does not depend on whether the peer then closes
+or keeps the connection open — it never runs into the read time-out with a complete head in its buffer. -/
+theorem complete_head_needs_no_eof : ∀ (fuel : Nat) (buf : Bytes) (cap : Nat) (stream : Bytes) (sched gs : List Nat)
+    (max : Nat), containsTwoNewlines buf = false →
+    (∃ n, containsTwoNewlines (buf ++ stream.take n) = true) →
+    readHeadersLoop fuel buf cap stream sched gs max false = readHeadersLoop fuel buf cap stream sched gs max true := by
+  intro fuel
+  induction fuel with
+  | zero => intro _ _ _ _ _ _ _ _; rfl
+  | succ fuel ih =>
+    intro buf cap stream sched gs max hinv ⟨n, hn⟩
+    unfold readHeadersLoop
+    by_cases hmax : buf.length ≥ max
+    · simp [hmax]
+    · simp only [hmax, ↓reduceIte]
+      generalize hcap : (if cap < buf.length + 512 then
+          (if cap ≥ (if buf.length + 512 > max then buf.length + (buf.length + 512 - max) else buf.length + 512) then cap
+            else (if buf.length + 512 > max then buf.length + (buf.length + 512 - max) else buf.length + 512)) + gs.headD 0
+        else cap) = cap'
+      have hcap' : buf.length < cap' := by
+        rw [← hcap]
+        split
+        · split <;> split <;> omega
+        · omega
+      generalize hk : min (min (Nat.max (sched.headD (min cap' max - buf.length)) 1) (min cap' max - buf.length)) stream.length = k
+      by_cases hz : k = 0
+      · -- nothing delivered although space is left: the stream is exhausted, so `buf` already holds the blank line
+        exfalso
+        have hs0 : stream.length = 0 := by
+          have : 1 ≤ Nat.max (sched.headD (min cap' max - buf.length)) 1 := Nat.le_max_right _ _
+          omega
+        have : stream = [] := List.eq_nil_of_length_eq_zero hs0
+        subst this
+        simp only [List.take_nil, List.append_nil] at hn
+        rw [hinv] at hn; cases hn
+      · simp only [hz, ↓reduceIte]
+        split
+        · rfl
+        · split
+          · rfl
+          · rename_i hcont
+            apply ih
+            · simpa using hcont
+            · by_cases hnk : n ≤ k
+              · exfalso
+                have : containsTwoNewlines (buf ++ stream.take k) = true := by
+                  have e := (List.take_append_drop n (stream.take k)).symm
+                  rw [List.take_take, Nat.min_eq_left hnk] at e
+                  rw [e, ← List.append_assoc]
+                  exact containsTwoNewlines_append _ _ hn
+                simp [this] at hcont
+              · refine ⟨n - k, ?_⟩
+                rw [List.append_assoc, ← List.take_add]
+                have : k + (n - k) = n := by omega
+                rw [this]; exact hn
+
+theorem readHeaders_complete_head (stream : Bytes) (sched gs : List Nat) (max : Nat)
+    (h : ∃ n, containsTwoNewlines (stream.take n) = true) :
+    readHeaders stream sched gs max false = readHeaders stream sched gs max true :=
+  complete_head_needs_no_eof _ [] 512 stream sched gs max rfl (by simpa using h)
 
 /-- **oversized heads are errors, never partial requests**: if the stream is longer than the limit and its
 first `max` bytes hold no blank line, no schedule makes the reader return a request. -/
 theorem oversized_is_error (stream : Bytes) (sched gs : List Nat) (max : Nat)
     (hlong : max < stream.length)
     (hnone : ∀ n, n ≤ max → containsTwoNewlines (stream.take n) = false) :
-    ∀ r, readHeaders stream sched gs max ≠ .ok r := by
-  intro r h
-  obtain ⟨n, hn, hr, hlen, _, hend⟩ := readHeaders_spec stream sched gs max r h
+    ∀ eof r, readHeaders stream sched gs max eof ≠ .ok r := by
+  intro eof r h
+  obtain ⟨n, hn, hr, hlen, _, hend⟩ := readHeaders_spec stream sched gs max eof r h
   have hnl : n ≤ max := by
     rw [hr, List.length_take] at hlen; omega
   rcases hend with h2 | h2
